@@ -194,7 +194,7 @@ def aead(tier):
             fn = 'belt%s%s' % (mode, 'Unwrap' if unwrap else 'Wrap')
             uf = UF if unwrap and False else UFE   # CTR-based: both directions only ever ENcrypt blocks
             common = dict(harness=H + fn + '.c', defs=['MAXN=%d' % maxn, 'MAXN2=%d' % maxn2, 'ASZ=%d' % L.asz, 'RSZ=%d' % (2 * maxn + maxn2 + 200)],
-                          srcs=CORE + [LCL_UF, BLOCK, B + 'belt_ctr.c', B + ('belt_dwp.c' if mode == 'DWP' else 'belt_che.c'), 'src/math/ww.c'],
+                          srcs=CORE + [LCL_UF, BLOCK, B + 'belt_ctr.c', B + 'belt_dwp.c'] + ([B + 'belt_che.c'] if mode == 'CHE' else []) + ['src/math/ww.c'],   # beltCHEUnwrap sizes its state with beltDWP_keep()
                           stub_files=uf + WIPE + POLY, stubs=['belt_block_uf_e', 'beltPolyMul -> uninterpreted GF(2^128) product', 'memWipe -> no-op'],
                           unwind=maxn + 40, timeout=300, mem_gb=6, blob_exact=True, cbmc_extra=['--max-field-sensitivity-array-size', '512'],
                           unwind_rules=[(r'^(belt)\w+Step\w*\.\d+$', maxn // 16 + 4), (r'^c11_cp\.\d+$', L.asz + 2)],
